@@ -746,3 +746,24 @@ def gen_float_guards():
            f'def processQuantitiesStripsValue : Bool := {b(strips)}\n\n'
            'end PhotVerif.Gen.FloatGuards\n')
     return 'FloatGuards.lean', src, out
+
+
+def gen_effects_table():
+    """effect programs of every public function / class in scope (C10), via tools/effects.py + tools/effects_scan.py"""
+    import effects as EF
+    import effects_scan as ES
+    ents, summ = ES.scan()
+    srcs = ''.join(open(os.path.join(REPO, f)).read() for f in ES.SCOPE if os.path.exists(os.path.join(REPO, f)))
+    out = ('/- GENERATED by tools/extract_tables.py (tools/effects.py: effect programs of the public functions and classes) '
+           f'(sha256/16 {sha(srcs)}). DO NOT EDIT. -/\n'
+           'import PhotVerif.Model.Effects\nnamespace PhotVerif.Gen.EffectsTable\nopen PhotVerif.Model.Effects\n\n'
+           f'def fuel : Nat := {ES.FUEL}\n\n'
+           'structure Unit where\n  name : String\n  k : Nat\n  nv : Nat\n  prog : Stmt\n\n')
+    names = []
+    for i, e in enumerate(ents):
+        nm = f'u{i}'
+        names.append(nm)
+        out += (f'/-- {e["name"]} ({e["kind"]}); inputs: {", ".join(e["params"]) or "-"} -/\n'
+                f'def {nm} : Unit := ⟨{lean_str(e["name"])}, {e["k"]}, {e["nv"]},\n  {EF.to_lean(e["prog"])}⟩\n\n')
+    out += 'def units : List Unit := [' + ', '.join(names) + ']\n\nend PhotVerif.Gen.EffectsTable\n'
+    return 'EffectsTable.lean', srcs, out
